@@ -10,7 +10,7 @@ import (
 )
 
 func pt() {
-	if vsched.Active {
+	if vsched.On() {
 		vsched.Atomic()
 	}
 }
